@@ -44,6 +44,10 @@ DESC = {
  "C11d": "parse_bipartite_edgelist applies nodetype/edgetype by column, then picks roles (needs dual=True and nodetype != edgetype)",
  "C11e": "read_incidence_matrix reshapes a 1-D load to one row (needs exactly one edge and at least two nodes)",
  "C11f": "a _cast helper casts column 0 with nodetype and column 1 with edgetype before the dual swap (needs dual=True and different casts)",
+ "C20a": "barycentre layouts keep the positions of the vertices whose bipartite attribute is 'node' (needs labels that equal small ints without being int, e.g. numpy.int64(0): a phantom vertex then overwrites the attribute)",
+ "C20b": "edge_positions_from_barycenters averages (*tail, *head) for a DiHypergraph (needs a node in both tail and head)",
+ "C20c": "_CCW_sort drops a point that lies exactly on the centroid (needs a member positioned on the mean of its edge)",
+ "C20d": "draw_hyperedges builds a numpy object array from member lists (needs tuple labels of equal length and equal-sized edges)",
  "C19h": "relabelling lets an existing 'label' attribute win over the old id (needs relabelling twice or user data with that key)",
 }
 def main(ids):
